@@ -16,7 +16,8 @@ ASSUMPTIONS = ["theorems are about exact rational arithmetic (secExact); float32
 RULE = ("trajectory blocks: scale 0..127 (0,1,10,127 favoured), 0..40 segments, every combination of constant/linear/cubic/degree-7 "
         "encodings per axis, durations {1,2,999,1000,65535,seeded}, coordinates {±32767,-32768,0,seeded}, negative and >=3600 yaw; "
         "fresh player per query at times {-inf,<0,0,every boundary exactly and ±1 ulp, interior fractions, end, beyond, 1e9, +inf}; "
-        "all duration queries (trajectory ms/sec, player, statistics), start/end position; both storage modes. "
+        "all duration queries (trajectory ms/sec, player, statistics; seconds within 2 ulp of ms/1000), start/end position; both storage modes; "
+        "a 70 KB raw block and blocks of 2000..6000 short segments (duration sums). "
         "Non-trivial: at least one segment.")
 
 
@@ -46,7 +47,16 @@ def generate(rng, tier):
     total = nseg * 7
     qs = [f"p{f2b(t)}" for t in (1.0, 91.0, 91.73, 91.7385, 91.75, 92.5, total / 1000.0 - 0.0035, total / 1000.0 + 1.0)]
     out.append((f"traj b {hx(bytes(big))} " + " ".join(qs) + " d", True))
-    out.append((f"traj o {hx(bytes(big))} D E e", True))
+    out.append((f"traj o {hx(bytes(big))} D E S e", True))
+    # many short segments whose durations are no binary fractions of a second: the total in seconds is the sum of the
+    # millisecond durations (a sum of per-segment float seconds drifts by hundreds of units in the last place)
+    for nseg, dur, lead in ((6000, 1, None), (2000, 33, None), (3000, 1, 65535), (4000, 7, 999)):
+        blk = bytearray([1]) + i16(0) + i16(0) + i16(0) + i16(0)
+        if lead is not None:
+            blk += bytes([0x00]) + u16(lead)
+        for k in range(nseg):
+            blk += (bytes([0x00]) + u16(dur)) if k % 3 else (bytes([0x01]) + u16(dur) + i16(k % 1000))
+        out.append((f"traj b {hx(bytes(blk))} D E S d e", True))
     # all degree combinations on a two-segment trajectory
     for dx in range(4):
         for dy in range(4):
